@@ -71,6 +71,15 @@ func (t *Ty) Reflect() reflect.Type {
 		return t.rt
 	}
 	var r reflect.Type
+	if t.K == "named" && t.Name == "RawMessage" && t.Elem != nil && t.Elem.K == "named" {
+		// a zoo type (protomsg.go): `named RawMessage named <Z> <underlying>` = the declared Go type Z, encoded through its methods
+		z, ok := zooTypes[t.Elem.Name]
+		if !ok {
+			panic("unknown zoo type " + t.Elem.Name)
+		}
+		t.rt = z.rt
+		return z.rt
+	}
 	switch t.K {
 	case "bool":
 		r = reflect.TypeOf(false)
@@ -121,7 +130,7 @@ func (t *Ty) Reflect() reflect.Type {
 }
 
 func isByteSeq(t *Ty) bool {
-	t = unnamed(t) // defined types are transparent (type Hash [4]byte, type RawMessage []byte)
+	t = unnamed(t) // defined types are transparent (type Hash [4]byte, type RawMessage []byte); a zoo leaf stays `named`: false
 	return t.K == "bytes" || (t.K == "sl" && t.Elem.K == "u8") || (t.K == "arr" && t.Elem.K == "u8")
 }
 
@@ -193,6 +202,10 @@ func parseVal(t *Ty, s string) reflect.Value {
 }
 
 func parseValInto(t *Ty, p *toks, dst reflect.Value) {
+	if z := zooOf(t); z != nil {
+		z.parse(p, dst) // a zoo leaf travels as its payload: `s <hex>` (ZFail also `i <n>`)
+		return
+	}
 	k := p.next()
 	switch k {
 	case "b0":
@@ -256,16 +269,31 @@ func parseValInto(t *Ty, p *toks, dst reflect.Value) {
 	case "t":
 		n := atoi(p.next())
 		tt := unnamed(t)
+		type ref struct{ f, k int }
+		var refs []ref
 		for i := 0; i < n; i++ {
+			// thrift union field: `p i <k>` = a pointer to the field at position k of this very struct value
+			if dst.Field(i).Kind() == reflect.Interface && p.i < len(p.t) && p.t[p.i] == "p" {
+				p.next()
+				if p.next() != "i" {
+					panic("union reference: expected `p i <k>`")
+				}
+				refs = append(refs, ref{i, atoi(p.next())})
+				continue
+			}
 			parseValInto(tt.Fields[i].T, p, dst.Field(i))
+		}
+		for _, r := range refs {
+			dst.Field(r.f).Set(dst.Field(r.k).Addr())
 		}
 	default:
 		panic("bad value token " + k)
 	}
 }
 
+// unnamed strips the defined-type markers. A zoo leaf (protomsg.go) is opaque: it is returned as it is, never looked into.
 func unnamed(t *Ty) *Ty {
-	for t.K == "named" {
+	for t.K == "named" && zooOf(t) == nil {
 		t = t.Elem
 	}
 	return t
@@ -282,6 +310,10 @@ func showVal(t *Ty, v reflect.Value, canon bool) string {
 }
 
 func showValTo(sb *strings.Builder, t *Ty, v reflect.Value, canon bool) {
+	if z := zooOf(t); z != nil {
+		sb.WriteString(z.show(v, canon)) // before the kind switch: the kinds are struct / slice / map / int
+		return
+	}
 	tt := unnamed(t)
 	switch v.Kind() {
 	case reflect.Bool:
@@ -368,6 +400,10 @@ func showValTo(sb *strings.Builder, t *Ty, v reflect.Value, canon bool) {
 		fmt.Fprintf(sb, "t %d", v.NumField())
 		for i := 0; i < v.NumField(); i++ {
 			sb.WriteString(" ")
+			if fv := v.Field(i); fv.Kind() == reflect.Interface && !fv.IsNil() && strings.Contains(tt.Fields[i].Tag, ",union") {
+				sb.WriteString(showUnionRef(v, fv))
+				continue
+			}
 			showValTo(sb, tt.Fields[i].T, v.Field(i), canon)
 		}
 	default:
@@ -415,6 +451,9 @@ var edgeF64 = []uint64{0, 1 << 63, 0x3ff0000000000000, 0xbff0000000000000, 0x7ff
 
 // genVal generates a random value of type t. depth bounds collection sizes.
 func (h *H) genVal(t *Ty, depth int) reflect.Value {
+	if z := zooOf(t); z != nil {
+		return z.gen(h)
+	}
 	rt := t.Reflect()
 	v := reflect.New(rt).Elem()
 	tt := unnamed(t)
@@ -493,7 +532,7 @@ func (h *H) genVal(t *Ty, depth int) reflect.Value {
 		v.Set(m)
 	case reflect.Struct:
 		for i := range tt.Fields {
-			if h.Intn(5) != 0 { // leave some fields zero
+			if h.Intn(5) != 0 || zooOf(tt.Fields[i].T) != nil { // leave some fields zero (never a zoo leaf: a nil ZMap is outside the transport)
 				v.Field(i).Set(h.genVal(tt.Fields[i].T, depth+1))
 			}
 		}
@@ -552,4 +591,27 @@ func (h *H) genBytes() []byte {
 		}
 		return b
 	}
+}
+
+// showUnionRef prints the content of a thrift union field: `p i <k>` when it holds the address of field k of the same
+// struct value v; `p i -(k+1)` when it holds a pointer of field k's pointer type that points elsewhere (first such k);
+// `p i -32768` otherwise.
+func showUnionRef(v, fv reflect.Value) string {
+	e := fv.Elem()
+	if e.Kind() != reflect.Ptr {
+		return "p i -32768"
+	}
+	if v.CanAddr() {
+		for k := 0; k < v.NumField(); k++ {
+			if f := v.Field(k); f.CanAddr() && f.Addr().Type() == e.Type() && f.Addr().Pointer() == e.Pointer() {
+				return "p i " + strconv.Itoa(k)
+			}
+		}
+	}
+	for k := 0; k < v.NumField(); k++ {
+		if reflect.PointerTo(v.Field(k).Type()) == e.Type() {
+			return "p i " + strconv.Itoa(-(k + 1))
+		}
+	}
+	return "p i -32768"
 }
